@@ -1886,7 +1886,13 @@ impl TypeCheckVisitor<'_> {
         let inferred_lhs_ty = self.infer_expr(lhs, type_bindings, expected_return_ty);
         let inferred_rhs_ty = self.infer_expr(rhs, type_bindings, expected_return_ty);
 
-        if let Some((int_op, float_op)) = op_pairs {
+        // `NoValue` is a subtype of everything, so operands that can
+        // never have a value (e.g. the items of `[]`) say nothing about
+        // which operator was intended. Without this, `-` and `-.` each
+        // suggest the other.
+        let both_no_value = inferred_lhs_ty.is_no_value() && inferred_rhs_ty.is_no_value();
+
+        if let Some((int_op, float_op)) = op_pairs.filter(|_| !both_no_value) {
             // Add a special case for users confusing the int and float operators.
             if is_subtype_not_error(&inferred_lhs_ty, &Type::float())
                 && is_subtype_not_error(&inferred_rhs_ty, &Type::float())
